@@ -1,7 +1,10 @@
 ; idx(a,b) = a + b: element addresses go through this function so that quantified clauses over
 ; s[k] have an E-matching trigger independent of the arithmetic normal form of the index.
+;@proof-only
 (declare-fun idx (Int Int) Int)
 (assert (forall ((a Int) (b Int)) (! (= (idx a b) (+ a b)) :pattern ((idx a b)))))
+;@end
+;@model (define-fun idx ((a Int) (b Int)) Int (+ a b))
 ; Wire-format specification functions (Int mode). Written from the property statements
 ; and the pinned layout, with LITERAL constants (no reference to format.TypeX).
 ; M: byte array of one object; e: index one past the value's last byte; lo: lowest readable index.
@@ -68,11 +71,17 @@
 ; ---- tables
 ; smallTag / bigTag are uninterpreted with a definitional axiom so that quantified clauses over
 ; table entries have a clean E-matching trigger (patterns over (* 3 k) do not match reliably).
+;@proof-only
 (declare-fun smallTag ((Array Int Int) Int Int) Int)
 (assert (forall ((T (Array Int Int)) (s Int) (k Int)) (! (= (smallTag T s k) (select T (+ s (* 3 k)))) :pattern ((smallTag T s k)))))
+;@end
+;@model (define-fun smallTag ((T (Array Int Int)) (s Int) (k Int)) Int (select T (+ s (* 3 k))))
 (define-fun smallOff ((T (Array Int Int)) (s Int) (k Int)) Int (be16 T (+ s (* 3 k) 1)))
+;@proof-only
 (declare-fun bigTag ((Array Int Int) Int Int) Int)
 (assert (forall ((T (Array Int Int)) (s Int) (k Int)) (! (= (bigTag T s k) (be16 T (+ s (* 6 k)))) :pattern ((bigTag T s k)))))
+;@end
+;@model (define-fun bigTag ((T (Array Int Int)) (s Int) (k Int)) Int (be16 T (+ s (* 6 k))))
 (define-fun bigOff   ((T (Array Int Int)) (s Int) (k Int)) Int (be32 T (+ s (* 6 k) 2)))
 (define-fun listSmallEnd ((T (Array Int Int)) (s Int) (k Int)) Int (be16 T (+ s (* 2 k))))
 (define-fun listBigEnd   ((T (Array Int Int)) (s Int) (k Int)) Int (be32 T (+ s (* 4 k))))
